@@ -88,6 +88,14 @@ pub struct SeederCfg {
     pub timed: Vec<(u64, ChokeAct)>,
     /// after serving this many blocks: keep the connection open but never send anything again
     pub silent_after_blocks: Option<u64>,
+    /// advertise only these pieces at first (the rest of `have` is announced by `late_haves`)
+    pub initial_advert: Option<Vec<bool>>,
+    /// re-send the Bitfield (what has been advertised so far) after this many served blocks
+    pub rebitfield_at: Vec<u64>,
+    /// Have messages at fixed times after connecting: (ms, piece)
+    pub timed_haves: Vec<(u64, usize)>,
+    /// keep the connection alive for ever: every so many ms repeat a Have for an advertised piece
+    pub chatter_ms: Option<u64>,
 }
 
 impl SeederCfg {
@@ -109,6 +117,10 @@ impl SeederCfg {
             late_haves: vec![],
             timed: vec![],
             silent_after_blocks: None,
+            initial_advert: None,
+            rebitfield_at: vec![],
+            timed_haves: vec![],
+            chatter_ms: None,
         }
     }
 }
@@ -156,13 +168,15 @@ async fn seeder_task(cfg: SeederCfg, mut io: PeerIo) {
             if !io.send(&h).await { return; }
         }
     }
+    let mut advertised: Vec<bool> = cfg.initial_advert.clone().unwrap_or_else(|| cfg.have.clone());
     if cfg.haves_instead_of_bitfield {
-        for (i, h) in cfg.have.iter().enumerate() {
+        for (i, h) in advertised.iter().enumerate() {
             if *h && !io.send(&Msg::Have(i as u32)).await { return; }
         }
-    } else if !io.send(&Msg::Bitfield(bitfield_bytes(&cfg.have))).await {
+    } else if !io.send(&Msg::Bitfield(bitfield_bytes(&advertised))).await {
         return;
     }
+    let mut rebit: VecDeque<u64> = cfg.rebitfield_at.iter().cloned().collect();
     if cfg.leech {
         let _ = io.send(&Msg::Interested).await;
     }
@@ -175,13 +189,15 @@ async fn seeder_task(cfg: SeederCfg, mut io: PeerIo) {
     let mut requests: u64 = 0;
     let mut client_interested = false;
     let mut last_activity = io.log.now_ms();
+    let mut last_chatter = io.log.now_ms();
     // delayed actions: (due_ms, action)
-    enum Act { Serve(u32, u32, u32), Choke(ChokeAct) }
+    enum Act { Serve(u32, u32, u32), Choke(ChokeAct), Have(usize) }
     let mut queue: VecDeque<(u64, Act)> = VecDeque::new();
     if let Some(ms) = cfg.unchoke_after_ms {
         if ms > 0 { queue.push_back((start + ms, Act::Choke(ChokeAct::Unchoke))); }
     }
     for (ms, a) in &cfg.timed { queue.push_back((start + ms, Act::Choke(a.clone()))); }
+    for (ms, pc) in &cfg.timed_haves { queue.push_back((start + ms, Act::Have(*pc))); }
     let mut plan: VecDeque<(u64, ChokeAct, u64)> = cfg.choke_plan.iter().cloned().collect();
     let mut late: VecDeque<(u64, usize)> = cfg.late_haves.iter().cloned().collect();
     // outstanding requests per piece, to know which block completes a piece
@@ -203,6 +219,10 @@ async fn seeder_task(cfg: SeederCfg, mut io: PeerIo) {
         if let Some((k, _)) = due_idx {
             let (_, act) = queue.remove(k).unwrap();
             match act {
+                Act::Have(pc) => {
+                    if pc < advertised.len() { advertised[pc] = true; }
+                    if !io.send(&Msg::Have(pc as u32)).await { return; }
+                }
                 Act::Choke(a) => {
                     let m = match a { ChokeAct::Choke | ChokeAct::DoubleChoke => Msg::Choke, _ => Msg::Unchoke };
                     choking = matches!(m, Msg::Choke);
@@ -287,17 +307,33 @@ async fn seeder_task(cfg: SeederCfg, mut io: PeerIo) {
                         // a peer that follows the protocol eventually unchokes again
                         if matches!(a, ChokeAct::Choke | ChokeAct::DoubleChoke) { queue.push_back((now + undo.max(1), Act::Choke(inverse))); }
                     }
+                    while let Some(at) = rebit.front() {
+                        if *at > served { break; }
+                        rebit.pop_front();
+                        if !io.send(&Msg::Bitfield(bitfield_bytes(&advertised))).await { return; }
+                    }
                     while let Some((at, _)) = late.front() {
                         if *at > served { break; }
                         let (_, pc) = late.pop_front().unwrap();
+                        if pc < advertised.len() { advertised[pc] = true; }
                         if !io.send(&Msg::Have(pc as u32)).await { return; }
                     }
                 }
             }
             continue;
         }
+        // chatter: a harmless real message that keeps the connection from timing out
+        if let Some(c) = cfg.chatter_ms {
+            if now >= last_chatter + c {
+                last_chatter = now;
+                last_activity = now;
+                if let Some(i) = advertised.iter().position(|b| *b) { if !io.send(&Msg::Have(i as u32)).await { return; } }
+                continue;
+            }
+        }
         // wait for the next message or the next due action
         let next_due = queue.iter().map(|q| q.0).min();
+        let next_due = match cfg.chatter_ms { Some(c) => Some(next_due.unwrap_or(u64::MAX).min(last_chatter + c)), None => next_due };
         let idle_left = (last_activity + cfg.idle_close_ms).saturating_sub(now);
         if idle_left == 0 && queue.is_empty() { io.close(); return; }
         let wait = match next_due { Some(d) => d.saturating_sub(now).max(1).min(idle_left.max(1)), None => idle_left.max(1) };
